@@ -69,6 +69,7 @@ def gen_plan(seed, tier):
   n = r.randint(4, 30 if tier == "thorough" else 18)
   tag = [1000]
   reqs = []       # open multipart replies: dict(xid, stype, left)
+  completed = []  # (xid, stype) of replies that have completed
   xid = [0x9000]
   for _ in range(n):
     k = r.wpick([(8, "ps"), (8, "stats"), (2, "noise"), (1, "settle")])
@@ -84,8 +85,12 @@ def gen_plan(seed, tier):
         xid[0] += 1
         st = r.wpick([(4, W.ST_FLOW), (2, W.ST_TABLE), (3, W.ST_PORT),
                       (2, W.ST_QUEUE), (1, W.ST_DESC), (1, W.ST_AGGREGATE)])
-        # sometimes reuse the stats type of an open request with a new xid
-        q = {"xid": xid[0], "stype": st,
+        x = xid[0]
+        if completed and r.chance(0.2):
+          # a later request may legitimately reuse the xid (and type) of a
+          # request whose reply has completed
+          x, st = r.pick(completed)
+        q = {"xid": x, "stype": st,
              "left": 1 if st in SINGLE else r.randint(1, 6)}
         reqs.append(q)
       q["left"] -= 1
@@ -97,6 +102,8 @@ def gen_plan(seed, tier):
                     "more": more, "tags": tags})
       if not more:
         reqs.remove(q)
+        if not any(o["xid"] == q["xid"] for o in reqs):
+          completed.append((q["xid"], q["stype"]))
       elif r.chance(0.15):
         reqs.remove(q)        # abandoned: its remaining parts never come
     elif k == "noise":
